@@ -188,6 +188,12 @@ CHECKS = {
         text='Every 1-3 parameter hierarchy inside the template alphabet is built as a real ElfiModel; for the default list, every permutation and every ancestrally closed subset, pdf and logpdf are compared at every grid point (interior, exact support end points, outside, +-inf) with the product of conditional scipy densities, zero and -inf sets exactly. Input-form and shape rules, rvs (sizes None/1/3, seeded and global generator: positive density, shape) and gradient_logpdf (default, scalar and per-dimension stepsize; float and integer points) are decided on a sub-family.',
         note='Trusted: scipy.stats densities (elfi calls the same functions: the check decides graph composition, argument order and shape handling); closed-form derivatives self-tested against a 5-point stencil. Excluded: subsets with a parent outside the subset, points where a conditional is nan/inf, a node repeated as two arguments of one child. Bounds: 875 / 10 750 models, 10 / 15 grid values.',
         design_ref='4 C08'),
+    'C19': dict(
+        level='exploration',
+        technique='bounded product enumeration of boxes (rotation x centre x limits x seed), posterior configurations and hand-solved ROMC problems on the real classes with independently built test points and textbook density formulas as oracle, plus stateless DFS (vmc.explore) over every answer function of the objective-as-environment under the real line_search and RegionConstructor.build',
+        text="Every box of the alphabet is built on the real class: all sampled points must be contained (geometrically and by contains), the density must be 1/prod(widths) at points placed just inside every face and 0 just outside or far away, including degenerate limits that must be widened. For line search every below/above/at-threshold answer function reachable within K <= 7 and rep_lim <= 7 is executed: the result is positive, every probe in [0, result) stayed below, and the result is a probed-below offset or the resolution fallback. The posterior's unnormalised density and sample weights are decided on dyadic grids that hit the cut-off and region faces exactly, for direct construction, the real estimate_regions pipeline and small real ROMC runs.",
+        note="Trusted: orthonormal rotation alphabet; documented widening rule; dyadic eta so offsets are exact; harness seeds the global generator used by ROMC.sample / fit_local_surrogate; local surrogates compared with a 1e-6 band around the cut-off; acceptance = solved and f_min < eps_filter. The eigenvector-axes clause follows the mechanism's docstring and the repo test. Not covered: parallelize=True, the BO surrogate path.",
+        design_ref='4 C19'),
     'C15': dict(
         level='model_checking',
         technique='explicit-state BFS to closure over the real get_sub_seed cache states (all index requests in every '
